@@ -94,6 +94,9 @@ type FnCtx struct {
 	esc      *escInfo
 	existing []existingRef
 	lemmasUsed []string
+	cmpStrings []Val
+	streqSeen map[string]bool
+	allowLocals bool
 	assertBlk []*ssa.BasicBlock
 	anc map[*ssa.BasicBlock]map[*ssa.BasicBlock]bool
 	curEdges []string
